@@ -20,8 +20,8 @@ import tempfile
 import time
 
 HERE = os.path.dirname(os.path.dirname(os.path.abspath(__file__)))
-EVID = os.path.join(HERE, "evidence")
-REPLAY = os.path.join(HERE, "replay")
+EVID = os.environ.get("VF_EVIDENCE_DIR") or os.path.join(HERE, "evidence")
+REPLAY = os.environ.get("VF_REPLAY_DIR") or os.path.join(HERE, "replay")
 WORK = os.path.join(HERE, ".work")
 KF_FILE = os.path.join(HERE, "known_findings.json")
 NCPU = int(os.environ.get("VF_JOBS", "16"))
